@@ -126,3 +126,22 @@ Definition getters_len_only (fs : list finding) (t : gtable) (st : stable) (v v'
 
 (* the view restricted to its length: the same bytes with no spare capacity *)
 Definition restrict (v : slice) : slice := of_bytes (view v).
+
+(* ---- decoded NDP options (packet.NewOptions), the vocabulary shared by model and spec ---- *)
+Record ndp_st := mkSt {
+  st_mtu : N;
+  st_prefixes : list value;           (* in order of appearance *)
+  st_rdnss_lt : N; st_servers : list bytes;
+  st_slla : bytes; st_tlla : bytes;
+  st_dnssl_lt : N; st_domains : list bytes;
+  st_route : N * N * N * bytes }.     (* prefix length, preference, lifetime, prefix *)
+Definition st0 : ndp_st := mkSt 0 [] 0 [] [] [] 0 [] (0, 0, 0, []).
+
+(* the observed projection of NewOptions: a copied byte string that is empty shows as nil *)
+Definition vx (l : bytes) : value := match l with [] => VNil | _ => VX l end.
+Definition ndp_show (st : ndp_st) : value :=
+  VL [VN (st_mtu st); VL (st_prefixes st);
+      VL [VN (st_rdnss_lt st); VL (map vx (st_servers st))];
+      vx (st_slla st); vx (st_tlla st);
+      VL [VN (st_dnssl_lt st); VL (map vx (st_domains st))];
+      (let '(pl, prf, lt, pfx) := st_route st in VL [VN pl; VN prf; VN lt; vx pfx])].
